@@ -371,6 +371,31 @@ func c06Exec(c fw.Case) *fw.Result {
 		}
 		res.Event(1)
 		res.Eval("damage/required-feature/header")
+	case "exotic":
+		// Grey class, nothing asserted beyond "the process survives and the scan ends":
+		// repeated scalar fields written unpacked (one tag per value) or packed in two chunks.
+		// Both are the same message to a conforming protobuf parser, but no OSM writer emits
+		// them and the reference readers do not accept them either, so what the scan yields is
+		// recorded (DESIGN §12), not judged.
+		r := gen.New(c.Seed, "c06exotic")
+		for i := 0; i < 20; i++ {
+			f := pbfw.GenFile(r, pbfw.GenOpts{MinBlocks: 1, MaxBlocks: 3, MaxGroups: 2, MaxElems: 10})
+			want := f.ExpectAll()
+			pbfw.PackMode = int(c.Int("mode"))
+			data, _ := f.Encode(nil)
+			pbfw.PackMode = 0
+			sr := pbfScan(mon.NewReader(data), int(c.Int("procs")), false, nil, nil)
+			switch {
+			case sr.Err != nil:
+				res.Add(fmt.Sprintf("exotic_mode%d_error", c.Int("mode")), 1)
+			case pbfw.CompareSeq(want, sr.Objs) == "":
+				res.Add(fmt.Sprintf("exotic_mode%d_correct", c.Int("mode")), 1)
+			default:
+				res.Add(fmt.Sprintf("exotic_mode%d_silently_different", c.Int("mode")), 1)
+			}
+			res.Event(int64(len(sr.Objs)) + 1)
+		}
+		res.Eval(fmt.Sprintf("exotic/mode%d/procs%d", c.Int("mode"), c.Int("procs")))
 	case "ioerr":
 		f := c06SmallFile(c.Seed, 4)
 		data, lay := f.Encode(nil)
@@ -513,6 +538,10 @@ func c06Cases(tier string, seed uint64) []fw.Case {
 	}
 	for i := 0; i < 4; i++ {
 		cs = append(cs, fw.Case{Kind: "required-feature", Seed: gen.Sub(seed, "c06req", i), P: map[string]int64{"procs": int64(1 + 2*(i%2)), "askheader": int64(i / 2)}})
+	}
+	// (b') protobuf-level encodings no OSM writer produces (grey: survival only)
+	for i := 0; i < 4; i++ {
+		cs = append(cs, fw.Case{Kind: "exotic", Seed: gen.Sub(seed, "c06exotic", i), P: map[string]int64{"mode": int64(1 + i%2), "procs": int64(1 + 2*(i/2))}})
 	}
 	// (c) I/O fault sequences
 	nio := 4
